@@ -292,7 +292,7 @@ def handleDist (c info : Line) : IO Unit := do
   let pureOk := !small || (pts.all fun u => UDist.pmfPure n1 n2 T u == UDist.pmf n1 n2 T u
                                               && UDist.cdfPure n1 n2 T u == UDist.cdf n1 n2 T u)
   let recOk := UDist.hasTies T || n1 + n2 > 12 ||
-    ((List.range (n1 * n2 + 2)).all fun u => UDist.pUntiedRec n1 n2 u == UDist.pUntied n1 n2 u)
+    (UDist.pUntiedRec n1 n2 == UDist.pUntied n1 n2)
   let chk := (if pureOk then "" else " MODEL-INCONSISTENT(memo≠pure)") ++ (if recOk then "" else " MODEL-INCONSISTENT(counts≠pRec)")
   IO.println s!"obs {c.id} pmf={snapList pb mp} cdf={snapList cb mc} sum={snap sb msum}{chk}"
   -- specification: assignments of the pooled sample (value k repeated T[k] times; no T = all distinct)
